@@ -1,4 +1,4 @@
-CONSTANTS Kinds = {"scalar", "slice", "map", "pointer", "foreignStd", "foreignLocal", "error", "iface", "sub"}
+CONSTANTS Kinds = {"scalar", "slice", "map", "pointer", "foreignStd", "foreignLocal", "error", "iface", "sub", "subB"}
  MaxFields = 0
  TagClasses <- MCTagClasses
  ErrorShapes = {"notStruct", "plainStruct", "originScalar"}
